@@ -664,6 +664,144 @@ theorem privateOf_spec (size : Nat) (shared : List Block) (hne : shared ≠ []) 
         obtain ⟨c, hc, hcx⟩ := hg.mpr ⟨by omega, g2, hr⟩
         exact ⟨c, List.mem_append.mpr (Or.inr hc), hcx⟩
 
+theorem gapsThenTail_sorted (size : Nat) (rest : List Block) : ∀ (a : Block), SharedOk size (a :: rest) →
+    Sorted (gapsThenTail size (a :: rest)) ∧ ∀ c ∈ gapsThenTail size (a :: rest), a.2 ≤ c.1 ∧ c.2 ≤ size := by
+  induction rest with
+  | nil =>
+    intro a h
+    unfold gapsThenTail
+    by_cases hl : a.2 < size
+    · simp only [hl, if_true]
+      refine ⟨⟨hl, by simp, trivial⟩, ?_⟩
+      intro c hc; simp at hc; subst hc; exact ⟨Nat.le_refl _, Nat.le_refl _⟩
+    · simp only [hl, if_false]
+      exact ⟨trivial, by simp⟩
+  | cons b r ih =>
+    intro a h
+    obtain ⟨h1, h2, h3, h4⟩ := h
+    have hb := sharedOk_tail size b r h4
+    obtain ⟨is, ib⟩ := ih b h4
+    show Sorted ((a.2, b.1) :: gapsThenTail size (b :: r)) ∧ ∀ c ∈ (a.2, b.1) :: gapsThenTail size (b :: r), _
+    refine ⟨⟨h3, ?_, is⟩, ?_⟩
+    · intro c hc
+      have := (ib c hc).1
+      show b.1 ≤ c.1
+      omega
+    · intro c hc
+      rcases List.mem_cons.mp hc with hc | hc
+      · subst hc
+        exact ⟨Nat.le_refl _, by show b.1 ≤ size; omega⟩
+      · have := ib c hc
+        exact ⟨by omega, this.2⟩
+
+/-- the recorded private blocks are non-empty, increasing, disjoint, inside the allocation -/
+theorem privateOf_sorted (size : Nat) (shared : List Block) (hok : SharedOk size shared) :
+    Sorted (privateOf size shared) ∧ ∀ c ∈ privateOf size shared, c.2 ≤ size := by
+  cases shared with
+  | nil => exact ⟨trivial, by simp [privateOf]⟩
+  | cons a rest =>
+    have ha := sharedOk_tail size a rest hok
+    obtain ⟨gs, gb⟩ := gapsThenTail_sorted size rest a hok
+    unfold privateOf
+    by_cases h0 : a.1 > 0
+    · simp only [h0, if_true, List.singleton_append]
+      refine ⟨⟨h0, ?_, gs⟩, ?_⟩
+      · intro c hc
+        have := (gb c hc).1
+        show a.1 ≤ c.1
+        omega
+      · intro c hc
+        rcases List.mem_cons.mp hc with hc | hc
+        · subst hc; show a.1 ≤ size; omega
+        · exact (gb c hc).2
+    · simp only [h0, if_false, List.nil_append]
+      exact ⟨gs, fun c hc => (gb c hc).2⟩
+
+/-! #### the property over histories: bookkeeping + lookup + copy, in the three send modes -/
+
+/-- the requests of a history are accepted by `smpi_shared_malloc_partial` (its assertions) and lie in the address space -/
+def ReqOk : AEvent → Prop
+  | .malloc a s sh => sh ≠ [] ∧ SharedOk s sh ∧ a + s < W
+  | .free _ => True
+
+def LiveOk (a : LiveA) : Prop := a.shared ≠ [] ∧ SharedOk a.size a.shared ∧ a.addr + a.size < W
+
+theorem liveOk_run (h : List AEvent) : ∀ (l : List LiveA), (∀ a ∈ l, LiveOk a) → (∀ e ∈ h, ReqOk e) →
+    ∀ a ∈ lrun l h, LiveOk a := by
+  induction h with
+  | nil => intro l hl _; exact hl
+  | cons e rest ih =>
+    intro l hl he
+    apply ih (lstep l e) _ (fun e' he' => he e' (List.mem_cons_of_mem _ he'))
+    intro a ha
+    cases e with
+    | malloc ad s sh =>
+      rcases List.mem_cons.mp ha with ha | ha
+      · subst ha; exact he (.malloc ad s sh) (by simp)
+      · exact hl a ha
+    | free ad => exact hl a (List.mem_filter.mp ha).1
+
+/-- byte `x` of a message starting at `ptr` is private by the program's REQUEST: it lies in no requested shared block of the
+    live allocation containing the buffer (no condition for ordinary memory) -/
+def PrivateReq (l : List LiveA) (ptr x : Nat) : Prop :=
+  ∀ a ∈ l, a.contains ptr → ¬ Covered a.shared (x + (ptr - a.addr))
+
+/-- a message of `n` bytes at `ptr` lies inside the allocation containing its start -/
+def MsgFits (l : List LiveA) (ptr n : Nat) : Prop := ∀ a ∈ l, a.contains ptr → ptr + n ≤ a.addr + a.size
+
+theorem looked_up_kind_ok (h : List AEvent) (hf : FreshRun [] h) (hr : ∀ e ∈ h, ReqOk e) (ptr n x : Nat) (hx : x < n)
+    (hfit : MsgFits (lrun [] h) ptr n) (hp : PrivateReq (lrun [] h) ptr x) :
+    WfKind (kindOfLookup (isShared (arun [] h) ptr)) n ∧ PrivateIn (kindOfLookup (isShared (arun [] h) ptr)) x := by
+  cases hl : isShared (arun [] h) ptr with
+  | none => exact ⟨trivial, trivial⟩
+  | some r =>
+    obtain ⟨bl, off⟩ := r
+    obtain ⟨a, ha, hc, hbl, hoff⟩ := lookup_sound h hf ptr bl off hl
+    obtain ⟨hne, hok, hw⟩ := liveOk_run h [] (by simp) hr a ha
+    have hs := privateOf_sorted a.size a.shared hok
+    have hfa := hfit a ha hc
+    have hca : a.addr ≤ ptr ∧ ptr < a.addr + a.size := hc
+    subst hbl hoff
+    refine ⟨⟨hs.1, ?_, ?_⟩, ?_⟩
+    · intro b hb
+      have hb2 := hs.2 b hb
+      -- non-empty: from sortedness
+      have hlt : b.1 < b.2 := by
+        have : ∀ (l : List Block), Sorted l → ∀ b ∈ l, b.1 < b.2 := by
+          intro l
+          induction l with
+          | nil => intro _ b hb; cases hb
+          | cons c t ih =>
+            intro hsl b hb
+            rcases List.mem_cons.mp hb with hb | hb
+            · subst hb; exact hsl.1
+            · exact ih hsl.2.2 b hb
+        exact this _ hs.1 b hb
+      exact ⟨hlt, by omega⟩
+    · show ptr - a.addr + n < W
+      omega
+    · show Covered (privateOf a.size a.shared) (x + (ptr - a.addr))
+      exact (privateOf_spec a.size a.shared hne hok _).mpr ⟨by omega, hp a ha hc⟩
+
+/-- **private_bytes_transferred_after_any_history** — the property with the allocation bookkeeping in the loop: after ANY
+    history of shared allocations and frees (any addresses the kernel may hand out, freed ranges reused in any way), for a
+    send buffer at `ptrS` and a receive buffer at `ptrR` whose layouts the copy callback obtains from `smpi_is_shared`, in all
+    three send modes, every byte `x` of the transferred part that lies in no REQUESTED shared block of the live allocation
+    containing either buffer arrives with the value it had when the send started.  (Eager / detached: the callback sees the
+    heap copy, `seenBuffer`; the lookup of the heap copy's address is `none` as long as it lies in no live shared allocation —
+    that is the `.notShared` of `seenBuffer`.) -/
+theorem private_bytes_transferred_after_any_history (h : List AEvent) (hf : FreshRun [] h) (hr : ∀ e ∈ h, ReqOk e)
+    (m : Mode) (ptrS ptrR nSend nRecv : Nat) (viaTmp : Bool) (userAtSend userAtCopy dst tmp : Buf) (x : Nat)
+    (hx : x < Nat.min nSend nRecv)
+    (hfs : MsgFits (lrun [] h) ptrS (Nat.min nSend nRecv)) (hfr : MsgFits (lrun [] h) ptrR (Nat.min nSend nRecv))
+    (hps : PrivateReq (lrun [] h) ptrS x) (hpr : PrivateReq (lrun [] h) ptrR x)
+    (hstable : m = .rendezvous → userAtCopy = userAtSend) :
+    transfer m (kindOfLookup (isShared (arun [] h) ptrS)) (kindOfLookup (isShared (arun [] h) ptrR)) nSend nRecv viaTmp
+      userAtSend userAtCopy dst tmp x = userAtSend x := by
+  obtain ⟨ws, ps⟩ := looked_up_kind_ok h hf hr ptrS _ x hx hfs hps
+  obtain ⟨wr, pr⟩ := looked_up_kind_ok h hf hr ptrR _ x hx hfr hpr
+  exact private_bytes_transferred_all_modes m _ _ nSend nRecv viaTmp userAtSend userAtCopy dst tmp x ws wr hx ps pr hstable
+
 /-! #### non-vacuity and a sanity check of the state machine -/
 
 /-- the history of the missed seeded change: an allocation (first page private) at 0x50000 is freed, a larger one with
